@@ -212,6 +212,108 @@ theorem depsPass_tok_frame (rel : Rel) (db : DB) (predId dsId) (cfg : Cfg) (now 
             exact Hub.StoreInv.lookup_setAssoc_ne _ _ _ (fun h => hdep h.symm) _
         · split <;> rfl
 
+/-! ## queries registered by the transform (`track_queries`): the reversed chain leads back to the main entity -/
+
+/-- a forward path of hops from an entity of dataset `from`: hop `h` follows `h.pred` (inverse or not) into `h.ds`. -/
+inductive Fwd (rel : Rel) (predId : String → Option Nat) (dsId : String → Option Nat) (now : Nat) :
+    String → Nat → List Hop → Nat → Prop
+  | done (from_ : String) (x : Nat) : Fwd rel predId dsId now from_ x [] x
+  | hop (from_ : String) (x : Nat) (h : Hop) (rest : List Hop) (p m y : Nat)
+      (hp : predId h.pred = some p)
+      (hm : m ∈ rel x p h.inv ([from_, h.ds].filterMap dsId) now)
+      (hr : Fwd rel predId dsId now h.ds m rest y) : Fwd rel predId dsId now from_ x (h :: rest) y
+
+/-- the joins of the reversed path, recursively. -/
+def revJoins (from_ : String) : List Hop → List Join
+  | [] => []
+  | h :: rest => revJoins h.ds rest ++ [{ ds := from_, pred := h.pred, inv := !h.inv }]
+
+def lastHopDs (from_ : String) : List Hop → String
+  | [] => from_
+  | h :: rest => lastHopDs h.ds rest
+
+def endDs (prevDs : String) : List Join → String
+  | [] => prevDs
+  | j :: rest => endDs j.ds rest
+
+theorem endDs_append (prevDs : String) (js : List Join) (j : Join) : endDs prevDs (js ++ [j]) = j.ds := by
+  induction js generalizing prevDs with
+  | nil => rfl
+  | cons a as ih => simp only [List.cons_append, endDs]; exact ih a.ds
+
+theorem endDs_revJoins (d : String) (rest : List Hop) : endDs (lastHopDs d rest) (revJoins d rest) = d := by
+  cases rest with
+  | nil => rfl
+  | cons r rs => simp only [revJoins]; rw [endDs_append]
+
+theorem zipJoins_cons (main : String) (h : Hop) (rest : List Hop) :
+    ((h :: rest).zip (main :: ((h :: rest).map (·.ds)).dropLast)).map (fun hf => ({ ds := hf.2, pred := hf.1.pred, inv := !hf.1.inv } : Join))
+      = { ds := main, pred := h.pred, inv := !h.inv } ::
+        (rest.zip (h.ds :: (rest.map (·.ds)).dropLast)).map (fun hf => ({ ds := hf.2, pred := hf.1.pred, inv := !hf.1.inv } : Join)) := by
+  cases rest with
+  | nil => simp
+  | cons r rs => simp [List.dropLast]
+
+theorem zipJoins_rev (main : String) : ∀ (hops : List Hop),
+    ((hops.zip (main :: (hops.map (·.ds)).dropLast)).map (fun hf => ({ ds := hf.2, pred := hf.1.pred, inv := !hf.1.inv } : Join))).reverse
+      = revJoins main hops
+  | [] => by simp [revJoins]
+  | h :: rest => by
+    rw [zipJoins_cons, List.reverse_cons, zipJoins_rev h.ds rest]; rfl
+
+theorem getLast_lastHopDs (main : String) : ∀ (hops : List Hop) (l : Hop), hops.getLast? = some l → lastHopDs main hops = l.ds
+  | [], _, h => by simp at h
+  | [a], l, h => by simp at h; subst h; rfl
+  | a :: b :: rest, l, h => by
+    have : (b :: rest).getLast? = some l := by simpa [List.getLast?_cons_cons] using h
+    simp only [lastHopDs]
+    exact getLast_lastHopDs b.ds (b :: rest) l this ▸ rfl
+
+/-- what `reverseHops` builds, in recursive form. -/
+theorem reverseHops_eq (main : String) (hops : List Hop) (hne : hops ≠ []) :
+    reverseHops main hops = some { ds := lastHopDs main hops, joins := revJoins main hops } := by
+  unfold reverseHops
+  cases hl : hops.getLast? with
+  | none => exact absurd (List.getLast?_eq_none_iff.1 hl) hne
+  | some l =>
+    simp only
+    rw [zipJoins_rev, getLast_lastHopDs main hops l hl]
+
+theorem reach_snoc {rel : Rel} {predId dsId now prevAt} {idx : Nat} {prevDs : String} {s m : Nat} {js : List Join}
+    (hr : Reach rel predId dsId now prevAt idx prevDs s js m) (j : Join) (p x : Nat) (hp : predId j.pred = some p)
+    (hx : x ∈ rel m p j.inv ([endDs prevDs js, j.ds].filterMap dsId) now) :
+    Reach rel predId dsId now prevAt idx prevDs s (js ++ [j]) x := by
+  induction hr with
+  | done idx prevDs s => exact .hop _ _ _ j [] p x x hp (.inl hx) (.done _ _ _)
+  | hop idx prevDs s j' rest p' m' x' hp' hm' _ ih =>
+    exact .hop _ _ _ j' (rest ++ [j]) p' m' x hp' hm' (ih hx)
+
+/-- **T-C18-5 (registered queries are tracked)**: let the relation be symmetric under transposition (what C03 proves of
+the outgoing scan and states for the graph: `m` is related to `s` through `p` in one direction iff `s` is related to `m`
+in the other, whatever the order of the two datasets in the scope). If the transform can get from a main entity `x` to an
+entity `y` by a chain of hops it registered, then the dependency the builder derives from that chain — watching the
+dataset of the last hop — leads from `y` back to `x`: with `window_complete`, a change of `y` re-emits `x`. -/
+theorem reverseHops_reaches (rel : Rel) (predId dsId) (now : Nat) (prevAt : Option Nat)
+    (hsym : ∀ s p inv a b t m, m ∈ rel s p inv ([a, b].filterMap dsId) t → s ∈ rel m p (!inv) ([b, a].filterMap dsId) t)
+    (main : String) (hops : List Hop) (hne : hops ≠ []) (x y : Nat) (hf : Fwd rel predId dsId now main x hops y) :
+    ∃ dep, reverseHops main hops = some dep ∧ dep.joins ≠ [] ∧ Reach rel predId dsId now prevAt 0 dep.ds y dep.joins x := by
+  refine ⟨_, reverseHops_eq main hops hne, ?_, ?_⟩
+  · cases hops with
+    | nil => exact absurd rfl hne
+    | cons h rest => simp [revJoins]
+  · show Reach rel predId dsId now prevAt 0 (lastHopDs main hops) y (revJoins main hops) x
+    have gen : ∀ (idx : Nat) (from_ : String) (x : Nat) (hops : List Hop) (y : Nat), Fwd rel predId dsId now from_ x hops y →
+        Reach rel predId dsId now prevAt idx (lastHopDs from_ hops) y (revJoins from_ hops) x := by
+      intro idx from_ x hops y hf
+      induction hf with
+      | done from_ x => exact .done _ _ _
+      | hop from_ x h rest p m y hp hm _ ih =>
+        show Reach rel predId dsId now prevAt idx (lastHopDs h.ds rest) y (revJoins h.ds rest ++ [{ ds := from_, pred := h.pred, inv := !h.inv }]) x
+        refine reach_snoc ih _ p x hp ?_
+        rw [endDs_revJoins]
+        exact hsym _ _ _ _ _ _ _ hm
+    exact gen 0 main x hops y hf
+
 /-! ## the dependency builder -/
 
 theorem dedupDeps_spec : ∀ (l : List Dep) (seen : List String),
